@@ -109,6 +109,14 @@ type hiddenDeadline struct{ context.Context }
 
 func (hiddenDeadline) Deadline() (time.Time, bool) { return time.Time{}, false }
 
+// reportedDeadline is a context that reports a deadline without expiring at it by itself.
+type reportedDeadline struct {
+	context.Context
+	at stdtime.Time
+}
+
+func (c reportedDeadline) Deadline() (time.Time, bool) { return c.at, true }
+
 func oneSleep(r *R) {
 	strict := r.Cfg.StallPer1k == 0 && r.Cfg.LatePer1k == 0 && r.Cfg.TaskStallPer1k == 0
 	d := []time.Duration{50 * time.Millisecond, -time.Second, 0, time.Millisecond, 3 * time.Second, time.Hour}[r.Choose(6, "d")]
@@ -139,7 +147,17 @@ func oneSleep(r *R) {
 	case 4:
 		remaining = pos + time.Nanosecond
 		if r.Choose(2, "exactly-d") == 1 {
-			remaining = pos // the deadline is exactly d away: not closer than d
+			// The deadline is exactly d away: not closer than d. (A context that only *reports* that
+			// deadline: one that also expired then would make its timer and the sleep's fire at the
+			// same simulated instant, and which of two simultaneously ready cases a blocked select
+			// wakes up with is the Go runtime's choice, not the tape's.)
+			remaining = pos
+			ctx = NewCtx(root, "reports-deadline-exactly-d-away")
+			ctx.DeadlineAt = int64(sim.Now()) + int64(remaining)
+			ctx.C = reportedDeadline{ctx.C, stdtime.Now().Add(stdtime.Duration(remaining))}
+			hasDeadline = true
+			r.Probe("sleep-deadline-exactly-d-away")
+			break
 		}
 		ctx = NewDeadlineCtx(root, "just-beyond", remaining)
 		hasDeadline = true
